@@ -70,13 +70,24 @@ def main():
             for k, num in c["terms"]:
                 d[tuple(L(x) for x in k)] = (num / den) if den != 1 else num
             kw = dict(c.get("kwargs", {}))
-            if c.get("sched_tuple") and isinstance(kw.get("schedule"), list):
-                kw["schedule"] = tuple(kw["schedule"])
+            sched_list = kw.get("schedule") if isinstance(kw.get("schedule"), list) else None
+            if c.get("sched_tuple") and sched_list is not None:
+                kw["schedule"] = tuple(sched_list)
+            in_order_form = c.get("in_order_form")
             if kw.get("initial_state") is not None:
                 kw["initial_state"] = {L(k): v for k, v in kw["initial_state"]}
 
             def one():
                 captured.clear()
+                def kw_now():
+                    """the keyword arguments of ONE library call (a one-shot iterator can be handed over only once)"""
+                    k2 = dict(kw)
+                    if c.get("sched_iter") and sched_list is not None:
+                        k2["schedule"] = (T_ for T_ in sched_list)       # "an iterable of floats"
+                    return k2
+                if in_order_form and "in_order" in kw:
+                    import numpy as _np
+                    kw["in_order"] = {"int": int(bool(kw["in_order"])), "np": _np.bool_(bool(kw["in_order"]))}[in_order_form]
                 if os.path.exists(trace_file):
                     os.remove(trace_file)
                 if c.get("trace"):
@@ -93,7 +104,7 @@ def main():
                     try:
                         with warnings.catch_warnings():
                             warnings.simplefilter("ignore")
-                            fns[c["fn"]](model, **kw)
+                            fns[c["fn"]](model, **kw_now())
                     except Exception:          # noqa  (the judged call reports what it raises)
                         pass
                     if saved is not None:
@@ -127,9 +138,10 @@ def main():
                             order = ["num_anneals", "anneal_duration", "initial_state", "temperature_range", "schedule", "in_order", "seed"]
                             dflt = {"num_anneals": 1, "anneal_duration": 1000, "initial_state": None, "temperature_range": None,
                                     "schedule": "geometric", "in_order": True, "seed": None}
-                            res = fns[c["fn"]](model, *[kw.get(a_, dflt[a_]) for a_ in order])
+                            kwn = kw_now()
+                            res = fns[c["fn"]](model, *[kwn.get(a_, dflt[a_]) for a_ in order])
                         else:
-                            res = fns[c["fn"]](model, **kw)
+                            res = fns[c["fn"]](model, **kw_now())
                     rtype = type(res).__name__
                     for r in res:
                         api.append({"st": [[repr(k), v] for k, v in r.state.items()], "val": float(r.value).hex(),
